@@ -96,7 +96,10 @@ impl Scenario for ToVecSc {
           src_done.store(true, Ordering::SeqCst);
         });
       });
-      let mut fut = Box::pin(src.to_vec());
+      let tv = src.to_vec();
+      // a clone shares the future's state: it is observed once more after the first one became ready
+      let mut fut_again = Box::pin(tv.clone());
+      let mut fut = Box::pin(tv);
       let token = Arc::new(AtomicBool::new(false));
       let waker = Waker::from(Arc::new(ThreadWaker { thread: shuttle::thread::current(), token: token.clone() }));
       let mut cx = Context::from_waker(&waker);
@@ -109,7 +112,15 @@ impl Scenario for ToVecSc {
               Ok(buf) => format!("Ok[{}]", buf.read().unwrap().iter().map(|x| x.to_string()).collect::<Vec<_>>().join(",")),
               Err(e) => format!("Err({})", e.downcast_ref::<EP>().map(|p| p.0).unwrap_or(-1)),
             };
-            facade::log("h", 0, "", format!("result {} polls={}", res, polls));
+            // the same outcome must be observable again through the clone (not part of the co-simulated trace)
+            facade::log("h", 0, "", "again-start".into());
+            let again = match fut_again.as_mut().poll(&mut cx) {
+              Poll::Ready(Ok(buf)) => format!("Ok[{}]", buf.read().unwrap().iter().map(|x| x.to_string()).collect::<Vec<_>>().join(",")),
+              Poll::Ready(Err(e)) => format!("Err({})", e.downcast_ref::<EP>().map(|p| p.0).unwrap_or(-1)),
+              Poll::Pending => "Pending".to_string(),
+            };
+            facade::log("h", 0, "", "again-end".into());
+            facade::log("h", 0, "", format!("result {} polls={} again={}", res, polls, again));
             break;
           }
           Poll::Pending => {
@@ -154,7 +165,18 @@ impl Scenario for ToVecSc {
         src_tid = Some(e.tid);
       }
     }
+    let mut again = false; // the executor's second look through the clone is not part of the co-simulated trace
     for e in out.events.iter() {
+      if e.tid == 0 && e.kind == "h" && e.payload == "again-start" {
+        again = true;
+      }
+      if e.tid == 0 && e.kind == "h" && e.payload == "again-end" {
+        again = false;
+        continue;
+      }
+      if again && e.tid == 0 {
+        continue;
+      }
       let who = if e.tid == 0 {
         "exe"
       } else if Some(e.tid) == src_tid {
